@@ -77,6 +77,9 @@ func c10rules() []c10rule {
 		svc("undeclared-build-secret", "    build:\n      context: .\n      secrets: [nope]\n"),
 		svc("depends-on-unknown", "    depends_on: [nope]\n"),
 		svc("depends-on-unknown-long", "    depends_on:\n      nope: {condition: service_started}\n"),
+		// a required dependency on a service that profiles disable (short list: every entry is required)
+		svc("required-dependency-on-disabled-short", "    depends_on: [b, opt]\n"),
+		svc("required-dependency-on-disabled-long", "    depends_on:\n      opt: {condition: service_started}\n"),
 		// optional, but unknown (not merely disabled): still dangling; one name sorting before, one after the disabled service
 		svc("depends-on-unknown-optional-first", "    depends_on:\n      aaa-nope: {condition: service_started, required: false}\n"),
 		svc("depends-on-unknown-optional-last", "    depends_on:\n      zzz-nope: {condition: service_started, required: false}\n"),
@@ -125,6 +128,7 @@ func c10rules() []c10rule {
 		ok("agree-mem-reservation", "    mem_reservation: 100m\n    deploy: {resources: {reservations: {memory: 100m}}}\n"),
 		ok("agree-pids", "    pids_limit: 10\n    deploy: {resources: {limits: {pids: 10}}}\n"),
 		ok("container-name-scale-1", "    container_name: fixed\n    scale: 1\n"),
+		ok("optional-dependency-on-existing", "    depends_on:\n      b: {condition: service_healthy, required: false}\n"),
 		ok("optional-dependency-on-disabled", "    depends_on:\n      b: {condition: service_started}\n      opt: {condition: service_started, required: false}\n"),
 	}
 	// every violation next to every consistent boundary case (two later documents): a benign sibling - an optional
@@ -138,7 +142,14 @@ func c10rules() []c10rule {
 			if !o.valid {
 				continue
 			}
+			if strings.Contains(v.frag, " opt") && strings.Contains(o.frag, " opt") {
+				continue // both speak about the same dependency entry: together they are a different model, possibly a valid one
+			}
 			combos = append(combos, c10rule{name: v.name + "+" + o.name, frag: o.frag + "---\n" + v.frag})
+			if strings.Contains(v.frag, "depends_on") && o.name == "optional-dependency-on-existing" {
+				// and the benign part as the later document (it refines the dependency list the violation wrote)
+				combos = append(combos, c10rule{name: v.name + "+later:" + o.name, frag: v.frag + "---\n" + o.frag})
+			}
 		}
 	}
 	return append(rules, combos...)
